@@ -436,6 +436,9 @@ func (s *spec) Step(w *engine.World, ctx sdk.Context, mm engine.Model, ev string
 		switch parts[0] {
 		case "reqlow":
 			limit = total - 1
+			if limit < 0 {
+				limit = 0 // the fee is 0: "one below the fee" does not exist, the request is an ordinary free one
+			}
 		case "reqgov":
 			sender = tssh.Authority
 		case "reqpoor":
